@@ -52,7 +52,7 @@ def gen_cases(tier, seed):
     # one SP object shared by threads: a forged copy of a signed response (same IDs, Signature untouched, content edited) is delivered while
     # the genuine one is being verified by another thread, yields injected inside the library
     for k in range(3 if tier == "quick" else 24):
-        cases.append({"id": "threads-%d" % k, "sig": ["threads", k], "kind": "threads", "k": k, "opts": list(OPTS[k % len(OPTS)]), "layout": ["R", "A", "RA"][k % 3],
+        cases.append({"id": "threads-%d" % k, "sig": ["threads", k], "kind": "threads", "own_worker": True, "all_envs": True, "k": k, "opts": list(OPTS[k % len(OPTS)]), "layout": ["R", "A", "RA"][k % 3],
                       "rounds": 10 if tier == "quick" else 40, "identity": gen.identity(random.Random("%s/threads/%d" % (seed, k)), hostile=False)})
     return cases
 
@@ -86,7 +86,7 @@ def run_threads_case(case, ctx):
                 seen["forged_accepted"].append(_identity(r))
             else:
                 seen["forged_rejected"] += 1
-    res, errs, stats = interleave.run_threads([genuine_loop, forged_loop, genuine_loop], "%s/%s" % (ctx.seed, case["id"]), p=0.05, timeout=600)
+    res, errs, stats = interleave.run_threads_regimes([genuine_loop, forged_loop, genuine_loop], "%s/%s" % (ctx.seed, case["id"]), timeout=600)
     viol = []
     if seen["forged_accepted"]:
         viol.append({"key": "C01/identity-from-unsigned-bytes/under-concurrency",
